@@ -11,7 +11,8 @@ def c03_bigint():
         for na in (False, True):
             for nb in (False, True):
                 for (la, lb, lq, lr) in shapes_q + shapes_t:
-                    q = api in quick_apis and (la, lb, lq, lr) in shapes_q
+                    # every API form is in the quick tier at least at the one-digit shape with a non-zero remainder (all four sign pairs)
+                    q = (api in quick_apis and (la, lb, lq, lr) in shapes_q) or (la, lb, lq, lr) == (1, 1, 1, 1)
                     if api not in quick_apis and (la, lb, lq, lr) in shapes_t[3:]:
                         continue
                     L.append("conv_shape!(c03_%s_conv_%s_%s%d_%s%d_q%d_r%d, API_%s, %s, %d, %s, %d, divrem_contract_%d_%d);" % (
